@@ -819,3 +819,20 @@ Proof.
     eapply topo_before_ancestors; eassumption.
   - apply reverse_ok_sound.
 Qed.
+
+(** prioritize_branch: the first emitted node reaches the prioritized node through recorded
+    non-missing edges, i.e. it is that node or one of its descendants *)
+Lemma prio_ok_sound (g : graph) (W : wf g) (shown : list nat) (stream out : stream_t) (x : nat) :
+  stream_holds g shown stream -> prio_ok g stream out x = true ->
+  exists h es rest, out = (h, es) :: rest /\ sreach stream h x /\ anc g x h.
+Proof.
+  intros (SD & Hsh & Hnode & Hes & Hanc) H. unfold prio_ok in H.
+  destruct out as [|[h es] rest]; [discriminate|]. exists h, es, rest. split; [reflexivity|].
+  assert (Lh : h < length g).
+  { destruct (Nat.lt_ge_cases h (length g)) as [L|L]; [assumption|exfalso].
+    rewrite nth_overflow in H; [now rewrite N.bits_0 in H|].
+    rewrite reach_tbl_eq, rt_upto_length. exact L. }
+  rewrite reach_tbl_eq in H.
+  assert (R : sreach stream h x) by (apply (rt_upto_spec g W shown stream Hes (length g) h Lh x); exact H).
+  split; [assumption|]. now apply (sreach_anc g W shown stream Hes).
+Qed.
